@@ -39,7 +39,7 @@ func runC12(c *Ctx, r *Rec) {
 		return
 	}
 	if len(st.problems) > 0 || st.scanLoop == nil {
-		r.undecided("bind", "cdcn.scanner-tables", "", "cannot extract the scanner tables: "+strings.Join(st.problems, "; "))
+		r.skip("bind", "cdcn.scanner-tables", "", "cannot extract the scanner tables: "+strings.Join(st.problems, "; "))
 		return
 	}
 	pms := c.methodsOf(parser)
@@ -229,6 +229,10 @@ func runC12(c *Ctx, r *Rec) {
 			var check ast.Expr
 			ast.Inspect(hfd.Body, func(x ast.Node) bool {
 				is, ok := x.(*ast.IfStmt)
+				if cc, isCase := x.(*ast.CaseClause); isCase && len(cc.List) == 1 {
+					// the same test written as a case of a tagless switch
+					is, ok = &ast.IfStmt{If: cc.Pos(), Cond: cc.List[0], Body: &ast.BlockStmt{Lbrace: cc.Colon, List: cc.Body, Rbrace: cc.End()}}, true
+				}
 				if !ok {
 					return true
 				}
@@ -348,12 +352,12 @@ func runC12(c *Ctx, r *Rec) {
 	for _, n := range tn {
 		re, err := parseRegex(st.matchers[n])
 		if err != nil {
-			r.undecided("D4-no-empty-token", "cdcn/token:"+st.names[n], c.pos(st.matcherPos[n]), err.Error())
+			r.skip("D4-no-empty-token", "cdcn/token:"+st.names[n], c.pos(st.matcherPos[n]), err.Error())
 			continue
 		}
 		d, err := dfaFromRegexp(al, re)
 		if err != nil {
-			r.undecided("D4-no-empty-token", "cdcn/token:"+st.names[n], c.pos(st.matcherPos[n]), err.Error())
+			r.skip("D4-no-empty-token", "cdcn/token:"+st.names[n], c.pos(st.matcherPos[n]), err.Error())
 			continue
 		}
 		r.check(!d.acceptsEmpty(), "D4-no-empty-token", "cdcn/token:"+st.names[n], c.pos(st.matcherPos[n]), "the pattern does not accept the empty string",
@@ -628,7 +632,8 @@ func checkScanLoop(c *Ctx, r *Rec, info *types.Info, st *scanTables) {
 		})
 	}
 	if adv == nil {
-		viol = append(viol, "the matching method never advances the cursor "+cursor.Name())
+		r.skip("D4-scan-loop", construct, c.pos(loop.Pos()), "no statement of the matching method itself advances the cursor "+cursor.Name()+" (it may be advanced by a helper, or the scanner keeps its position in another way): not evaluated")
+		return
 	} else {
 		// the increment is the rune length of the match: len([]rune(match)) with match the regex's result
 		src := resolveInit(info, fd, advLen)
@@ -759,7 +764,21 @@ func checkScannerNotAbandoned(c *Ctx, r *Rec, info *types.Info, st *scanTables, 
 			body = fl.Body
 		}
 		drains := false
+		var bodies []*ast.BlockStmt
 		if body != nil {
+			bodies = append(bodies, body)
+			inspectNoLit(body, func(x ast.Node) bool {
+				if call, ok := x.(*ast.CallExpr); ok {
+					if cf := calleeOf(info, call); cf != nil && !cf.Exported() {
+						if hd := c.declOf(cf); hd != nil && hd.Body != nil && c.infoFor(hd) == info {
+							bodies = append(bodies, hd.Body)
+						}
+					}
+				}
+				return true
+			})
+		}
+		for _, body := range bodies {
 			for _, l := range loopsIn(body) {
 				reads := false
 				inspectNoLit(l, func(x ast.Node) bool {
